@@ -107,6 +107,20 @@ class Ctx:
 
     # -- end -------------------------------------------------------------------------------------
     def finish(self, level='model_checking', rule='', assumptions=(), exhaustive=False, extra=None):
+        # admissible configurations the library refused to build (kdriver.filter_buildable): C01 / C14 are about exactly
+        # that; for the other properties the configuration is skipped and counted
+        try:
+            import kdriver as _K
+            refused = list(_K.REFUSED)
+        except Exception:   # noqa: BLE001
+            refused = []
+        for r in refused:
+            if self.pid in ('C01', 'C14'):
+                self.report(f"admissible configuration {r['u']} options {r['opts']} is refused by the library: {r['raised']}: {r['message']}",
+                            {'kind': 'refused', 'raised': r['raised']}, {'u': r['u'], 'opts': r['opts']})
+        if refused:
+            self.notes.append(f"{len(refused)} admissible configuration(s) refused by the library, e.g. {refused[0]['u']}: {refused[0]['raised']} {refused[0]['message'][:80]}")
+            self.extra['configurations_refused_by_the_library'] = len(refused)
         wall = time.time() - self.t0
         cov = {
             'states': max(self.states, 0),
